@@ -521,8 +521,29 @@ func execChess(args []string) string {
 			hist = append(hist, fmt.Sprintf("%016x", q.ZobristHash))
 		}
 		board := strings.Join(strings.Fields(q.ToFen())[:4], "_")
-		return fmt.Sprintf("res=ok dump=%s fen=%s board=%s hist=%s fullhash=%016x p.hash=%s p.shape=%s",
-			dumpPos(q), fenField(q.ToFen()), board, strings.Join(hist, ","), q.VerifFullHash(), b2s(q.VerifFullHash() == q.ZobristHash), b2s(checkShape(q)))
+		// the object reached by the moves generates the same moves and captures, and sees the same attacks, as the same position set up afresh
+		same := true
+		if r, err := position.NewFromFen(q.ToFen()); err == nil {
+			if guard(func() {
+				var a1, a2, c1, c2 move.MoveList
+				q.GeneratePseudoLegalMoves(&a1)
+				r.GeneratePseudoLegalMoves(&a2)
+				q.GeneratePseudoLegalCaptures(&c1)
+				r.GeneratePseudoLegalCaptures(&c2)
+				if a1.String() != a2.String() || c1.String() != c2.String() {
+					same = false
+				}
+				for sq := 0; sq < 64; sq++ {
+					if q.SquareAttackedBy(uint8(sq)) != r.SquareAttackedBy(uint8(sq)) {
+						same = false
+					}
+				}
+			}) {
+				same = false
+			}
+		}
+		return fmt.Sprintf("res=ok dump=%s fen=%s board=%s hist=%s fullhash=%016x p.hash=%s p.shape=%s p.gensame=%s",
+			dumpPos(q), fenField(q.ToFen()), board, strings.Join(hist, ","), q.VerifFullHash(), b2s(q.VerifFullHash() == q.ZobristHash), b2s(checkShape(q)), b2s(same))
 	case "null":
 		p, ok := posFromArg(args[1])
 		if !ok {
@@ -600,6 +621,23 @@ func emitPosition(o *Out, p *position.Position, rng *Rng, heavy bool) {
 		o.Stat("with_castling_rights")
 	}
 	o.Run("fen " + h)
+	// the same placement again with fewer castling rights / without the en passant square / with other counters: each text must be
+	// parsed on its own, whatever was parsed before it
+	if f := strings.Fields(fen); len(f) == 6 && (f[2] != "-" || f[3] != "-") && (heavy || rng.Intn(2) == 0) {
+		g := append([]string{}, f...)
+		if g[2] != "-" {
+			drop := rng.Intn(len(g[2]))
+			g[2] = g[2][:drop] + g[2][drop+1:]
+			if g[2] == "" || rng.Intn(3) == 0 {
+				g[2] = "-"
+			}
+		}
+		if rng.Intn(2) == 0 {
+			g[3] = "-"
+		}
+		o.Run("fen " + hexOf(strings.Join(g, " ")))
+		o.Run("fen " + h)
+	}
 	o.Run("gen " + h)
 	lms := legalMoves(p)
 	inCheck := inCheckSafe(p, p.SideToMove)
@@ -631,6 +669,26 @@ func emitPosition(o *Out, p *position.Position, rng *Rng, heavy bool) {
 	}
 	if !inCheck {
 		o.Run("null " + h)
+	}
+	// a castling move followed by two more plies, played on one position object: what the object answers afterwards must be what a
+	// freshly set up position answers (C17/C10/C12 on positions reached by special moves)
+	for _, lm := range lms {
+		if lm.m.GetMoveType() != move.CASTLING && lm.m.GetMoveType() != move.EN_PASSANT && !(lm.m.GetMoveType() == move.PROMOTION && rng.Intn(4) == 0) {
+			continue
+		}
+		seq := []string{lm.m.String()}
+		q := lm.pos
+		for k := 0; k < 2; k++ {
+			nx := legalMoves(&q)
+			if len(nx) == 0 {
+				break
+			}
+			pick := nx[rng.Intn(len(nx))]
+			seq = append(seq, pick.m.String())
+			q = pick.pos
+		}
+		o.Run("play " + h + " " + strings.Join(seq, " "))
+		o.Stat("special_move_sequences")
 	}
 }
 
